@@ -6,6 +6,7 @@ import M3d.Lemmas.SdfMisc
 import M3d.Lemmas.SdfProfile
 import M3d.Lemmas.SdfTri
 import M3d.Lemmas.SdfTriFull
+import M3d.Lemmas.SdfXform
 import Mathlib.Analysis.Real.Sqrt
 import Mathlib.Algebra.Order.Field.Rat
 import Mathlib.Tactic.NormNum
@@ -304,6 +305,177 @@ theorem profile_point_sdf_exact {E : Env K} (hE : E.Exact) (lo hi s : K) (p2 : V
     c.sqDist (profilePointSDF E lo hi p2 s c).1 =
       (profilePointSDF E lo hi p2 s c).2 * (profilePointSDF E lo hi p2 s c).2 :=
   profilePointSDF_spec hE lo hi s p2 c h hp
+
+/-! ## Collider- and transform-derived fields -/
+
+/-- **`ColliderToSDF`: the bisection brackets the threshold of the ball query.**  If the collider's
+`SphereCollision(c, r)` / `CircleCollision(c, r)` answers `D ≤ r` (`D > 0` the distance from `c` to the surface) and
+`2^-Iterations < D ≤ 2^Iterations`, then `colliderSDF.SDF(c)` is `+res` when `Contains(c)` and `-res` otherwise, with
+`res > 0` and `|res - D| < D / 2^(Iterations+1)`. -/
+theorem collider_sdf_brackets (D : K) (coll : K → Bool) (hc : ∀ r, coll r = decide (D ≤ r)) (contains : Bool)
+    (iters : Nat) (h1 : 1 < D * 2 ^ iters) (h2 : D ≤ 2 ^ iters) :
+    ∃ res : K, 0 < res ∧ |res - D| * 2 ^ (iters + 1) < D ∧
+      colliderSDF 2 coll contains iters = if contains then res else -res :=
+  colliderSDF_brackets D coll hc contains iters h1 h2
+
+example : (1 : ℚ) < 3 * 2 ^ 5 ∧ (3 : ℚ) ≤ 2 ^ 5 := by norm_num
+
+/-- **A `JoinedTransform` of `Translate`, `Scale` (factor `≠ 0`) and distance-preserving matrices (`Rotation`) is a
+similarity and `Inverse()` inverts it**: with `k = ∏ |Scale factors| > 0`, squared distances are multiplied by `k²`,
+`t.Apply(t.Inverse().Apply(c)) = c` and back, `t.ApplyDistance(d) = d k` and `t.Inverse().ApplyDistance(d) = d / k`. -/
+theorem joined_transform_similarity (ts : List (Xf3 K)) (h : ∀ t ∈ ts, t.Good) :
+    0 < xfFactor3 ts ∧
+    (∀ a b, (xfApply3 ts a).sqDist (xfApply3 ts b) = xfFactor3 ts * xfFactor3 ts * a.sqDist b) ∧
+    (∀ c, xfApply3 ts (xfApply3 (xfInverse3 ts) c) = c) ∧ (∀ c, xfApply3 (xfInverse3 ts) (xfApply3 ts c) = c) ∧
+    (∀ d, xfDist3 ts d = d * xfFactor3 ts) ∧ (∀ d, xfDist3 (xfInverse3 ts) d = d / xfFactor3 ts) :=
+  let S := xf3_sim ts h
+  ⟨S.kpos, S.sq_map, S.fg, S.gf, S.df_eq, S.dg_eq⟩
+
+/-- 2-D twin of `joined_transform_similarity`. -/
+theorem joined_transform2_similarity (ts : List (Xf2 K)) (h : ∀ t ∈ ts, t.Good) :
+    0 < xfFactor2 ts ∧
+    (∀ a b, (xfApply2 ts a).sqDist (xfApply2 ts b) = xfFactor2 ts * xfFactor2 ts * a.sqDist b) ∧
+    (∀ c, xfApply2 ts (xfApply2 (xfInverse2 ts) c) = c) ∧ (∀ c, xfApply2 (xfInverse2 ts) (xfApply2 ts c) = c) ∧
+    (∀ d, xfDist2 ts d = d * xfFactor2 ts) ∧ (∀ d, xfDist2 (xfInverse2 ts) d = d / xfFactor2 ts) :=
+  let S := xf2_sim ts h
+  ⟨S.kpos, S.sq_map, S.fg, S.gf, S.df_eq, S.dg_eq⟩
+
+example : ∀ t ∈ [Xf3.translate (⟨1, 2, 3⟩ : V3 ℚ), Xf3.scale (-2), Xf3.scale (1 / 4)], t.Good := by
+  intro t ht
+  simp only [List.mem_cons, List.not_mem_nil, or_false] at ht
+  rcases ht with rfl | rfl | rfl
+  · trivial
+  · show (-2 : ℚ) ≠ 0; norm_num
+  · show (1 / 4 : ℚ) ≠ 0; norm_num
+
+/-- a rotation by the angle with `cos = 3/5`, `sin = 4/5` about the z axis is a `Good` matrix member -/
+example : (Xf3.rot (⟨3 / 5, -4 / 5, 0, 4 / 5, 3 / 5, 0, 0, 0, 1⟩ : M3 ℚ)).Good :=
+  M3.good_of_ortho _ (by norm_num [M3.det]) (by norm_num [M3.Ortho])
+
+example : (Xf2.rot (⟨3 / 5, -4 / 5, 4 / 5, 3 / 5⟩ : M2 ℚ)).Good :=
+  M2.good_of_ortho _ (by norm_num [M2.det]) (by norm_num [M2.Ortho])
+
+/-- **`TransformSDF(t, s)` is the signed distance of the transformed shape** (`t` a similarity of factor `k` as in
+`joined_transform_similarity`; `c' = t.Inverse().Apply(c)`):
+* the value is `k · s.SDF(c')`, positive exactly where `s.SDF(c')` is (the image of the shape contains `c` iff the shape
+  contains `c'`);
+* for every point `p`, `‖c - t(p)‖² = k² ‖c' - p‖²`; hence a point `p` at the reported distance of `s` from `c'` is mapped
+  to a point at the reported distance of the transformed field from `c`, and if no point of a set `B` (the boundary of
+  the shape) is closer to `c'` than `|s.SDF(c')|`, no point of its image is closer to `c` than the transformed value. -/
+theorem transform_sdf_exact (ts : List (Xf3 K)) (h : ∀ t ∈ ts, t.Good) (sdf : V3 K → K) (c : V3 K) :
+    transformSDF3 ts sdf c = xfFactor3 ts * sdf (xfApply3 (xfInverse3 ts) c) ∧
+    (0 < transformSDF3 ts sdf c ↔ 0 < sdf (xfApply3 (xfInverse3 ts) c)) ∧
+    (∀ p, c.sqDist (xfApply3 ts p) = xfFactor3 ts * xfFactor3 ts * (xfApply3 (xfInverse3 ts) c).sqDist p) ∧
+    (∀ p, (xfApply3 (xfInverse3 ts) c).sqDist p =
+        sdf (xfApply3 (xfInverse3 ts) c) * sdf (xfApply3 (xfInverse3 ts) c) →
+      c.sqDist (xfApply3 ts p) = transformSDF3 ts sdf c * transformSDF3 ts sdf c) ∧
+    (∀ B : V3 K → Prop,
+      (∀ b, B b → sdf (xfApply3 (xfInverse3 ts) c) * sdf (xfApply3 (xfInverse3 ts) c) ≤
+        (xfApply3 (xfInverse3 ts) c).sqDist b) →
+      ∀ b, B b → transformSDF3 ts sdf c * transformSDF3 ts sdf c ≤ c.sqDist (xfApply3 ts b)) := by
+  have S := xf3_sim ts h
+  have hv : transformSDF3 ts sdf c = xfFactor3 ts * sdf (xfApply3 (xfInverse3 ts) c) := by
+    unfold transformSDF3; rw [S.df_eq]; ring
+  refine ⟨hv, ?_, S.nearest c, ?_, ?_⟩
+  · rw [hv]; exact ⟨fun hp => (pos_iff_pos_of_mul_pos hp).mp S.kpos, fun hp => mul_pos S.kpos hp⟩
+  · intro p hp; rw [S.nearest c p, hp, hv]; ring
+  · intro B hB b hb
+    rw [S.nearest c b, hv]
+    have := mul_le_mul_of_nonneg_left (hB b hb) (mul_nonneg S.kpos.le S.kpos.le)
+    calc _ = xfFactor3 ts * xfFactor3 ts * (sdf (xfApply3 (xfInverse3 ts) c) * sdf (xfApply3 (xfInverse3 ts) c)) := by ring
+      _ ≤ _ := this
+
+/-- 2-D twin of `transform_sdf_exact` (`model2d.TransformSDF`). -/
+theorem transform2_sdf_exact (ts : List (Xf2 K)) (h : ∀ t ∈ ts, t.Good) (sdf : V2 K → K) (c : V2 K) :
+    transformSDF2 ts sdf c = xfFactor2 ts * sdf (xfApply2 (xfInverse2 ts) c) ∧
+    (0 < transformSDF2 ts sdf c ↔ 0 < sdf (xfApply2 (xfInverse2 ts) c)) ∧
+    (∀ p, c.sqDist (xfApply2 ts p) = xfFactor2 ts * xfFactor2 ts * (xfApply2 (xfInverse2 ts) c).sqDist p) ∧
+    (∀ p, (xfApply2 (xfInverse2 ts) c).sqDist p =
+        sdf (xfApply2 (xfInverse2 ts) c) * sdf (xfApply2 (xfInverse2 ts) c) →
+      c.sqDist (xfApply2 ts p) = transformSDF2 ts sdf c * transformSDF2 ts sdf c) ∧
+    (∀ B : V2 K → Prop,
+      (∀ b, B b → sdf (xfApply2 (xfInverse2 ts) c) * sdf (xfApply2 (xfInverse2 ts) c) ≤
+        (xfApply2 (xfInverse2 ts) c).sqDist b) →
+      ∀ b, B b → transformSDF2 ts sdf c * transformSDF2 ts sdf c ≤ c.sqDist (xfApply2 ts b)) := by
+  have S := xf2_sim ts h
+  have hv : transformSDF2 ts sdf c = xfFactor2 ts * sdf (xfApply2 (xfInverse2 ts) c) := by
+    unfold transformSDF2; rw [S.df_eq]; ring
+  refine ⟨hv, ?_, S.nearest c, ?_, ?_⟩
+  · rw [hv]; exact ⟨fun hp => (pos_iff_pos_of_mul_pos hp).mp S.kpos, fun hp => mul_pos S.kpos hp⟩
+  · intro p hp; rw [S.nearest c p, hp, hv]; ring
+  · intro B hB b hb
+    rw [S.nearest c b, hv]
+    have := mul_le_mul_of_nonneg_left (hB b hb) (mul_nonneg S.kpos.le S.kpos.le)
+    calc _ = xfFactor2 ts * xfFactor2 ts * (sdf (xfApply2 (xfInverse2 ts) c) * sdf (xfApply2 (xfInverse2 ts) c)) := by ring
+      _ ≤ _ := this
+
+/-- **`ColliderToSDF(TransformCollider(t, shape))` brackets `k ·` (distance of the inverse-mapped point).**
+`t` a similarity of factor `k`; the wrapped collider's `SphereCollision(c, r)` is `|SDF(c)| ≤ r` (`Sphere`, `Rect`,
+`Capsule`, …); `s = shape.SDF(t.Inverse().Apply(c))`.  The transformed collider answers the ball query
+`|s| ≤ t.Inverse().ApplyDistance(r)`, i.e. `k |s| ≤ r`, so for `2^-Iterations < k |s| ≤ 2^Iterations` the derived
+field is `± res` (sign from `Contains`) with `|res - k |s|| < k |s| / 2^(Iterations+1)` — by `transform_sdf_exact`
+`k |s|` is the distance from `c` to the transformed surface. -/
+theorem transformed_collider_sdf_brackets (ts : List (Xf3 K)) (h : ∀ t ∈ ts, t.Good) (sdf : V3 K → K) (c : V3 K)
+    (contains : Bool) (iters : Nat)
+    (h1 : 1 < xfFactor3 ts * abs (sdf (xfApply3 (xfInverse3 ts) c)) * 2 ^ iters)
+    (h2 : xfFactor3 ts * abs (sdf (xfApply3 (xfInverse3 ts) c)) ≤ 2 ^ iters) :
+    ∃ res : K, 0 < res ∧
+      |res - xfFactor3 ts * abs (sdf (xfApply3 (xfInverse3 ts) c))| * 2 ^ (iters + 1) <
+        xfFactor3 ts * abs (sdf (xfApply3 (xfInverse3 ts) c)) ∧
+      transformedColliderSDF3 2 ts sdf contains iters c = if contains then res else -res := by
+  have S := xf3_sim ts h
+  exact colliderSDF_brackets _ _ (fun r => xfBallQuery_threshold S.kpos S.dg_eq _ r) contains iters h1 h2
+
+/-- 2-D twin (`CircleCollision`). -/
+theorem transformed_collider2_sdf_brackets (ts : List (Xf2 K)) (h : ∀ t ∈ ts, t.Good) (sdf : V2 K → K) (c : V2 K)
+    (contains : Bool) (iters : Nat)
+    (h1 : 1 < xfFactor2 ts * abs (sdf (xfApply2 (xfInverse2 ts) c)) * 2 ^ iters)
+    (h2 : xfFactor2 ts * abs (sdf (xfApply2 (xfInverse2 ts) c)) ≤ 2 ^ iters) :
+    ∃ res : K, 0 < res ∧
+      |res - xfFactor2 ts * abs (sdf (xfApply2 (xfInverse2 ts) c))| * 2 ^ (iters + 1) <
+        xfFactor2 ts * abs (sdf (xfApply2 (xfInverse2 ts) c)) ∧
+      transformedColliderSDF2 2 ts sdf contains iters c = if contains then res else -res := by
+  have S := xf2_sim ts h
+  exact colliderSDF_brackets _ _ (fun r => xfBallQuery_threshold S.kpos S.dg_eq _ r) contains iters h1 h2
+
+/-- **… and it is `k ×` the field derived from the original collider at the mapped point, up to the bisection
+resolution**: with `s` as above and both `|s|` and `k |s|` inside `(2^-Iterations, 2^Iterations]`,
+`ColliderToSDF(TransformCollider(t, shape)).SDF(c) = ± resT`, `ColliderToSDF(shape).SDF(t⁻¹ c) = ± res0` (same sign
+for the same containment flag) and `|resT - k res0| < k |s| / 2^Iterations`.  (A radius mapped with the forward
+transform instead — seeded change C06-2 — gives `resT ≈ |s| / k`, off by `k²`.) -/
+theorem transformed_collider_sdf_vs_original (ts : List (Xf3 K)) (h : ∀ t ∈ ts, t.Good) (sdf : V3 K → K) (c : V3 K)
+    (contains : Bool) (iters : Nat)
+    (h1 : 1 < xfFactor3 ts * abs (sdf (xfApply3 (xfInverse3 ts) c)) * 2 ^ iters)
+    (h2 : xfFactor3 ts * abs (sdf (xfApply3 (xfInverse3 ts) c)) ≤ 2 ^ iters)
+    (h3 : 1 < abs (sdf (xfApply3 (xfInverse3 ts) c)) * 2 ^ iters) (h4 : abs (sdf (xfApply3 (xfInverse3 ts) c)) ≤ 2 ^ iters) :
+    ∃ resT res0 : K, 0 < resT ∧ 0 < res0 ∧
+      transformedColliderSDF3 2 ts sdf contains iters c = (if contains then resT else -resT) ∧
+      colliderSDF 2 (fun r => decide (absS (sdf (xfApply3 (xfInverse3 ts) c)) ≤ r)) contains iters =
+        (if contains then res0 else -res0) ∧
+      |resT - xfFactor3 ts * res0| * 2 ^ iters < xfFactor3 ts * abs (sdf (xfApply3 (xfInverse3 ts) c)) := by
+  obtain ⟨resT, hT0, hT1, hT2⟩ := transformed_collider_sdf_brackets ts h sdf c contains iters h1 h2
+  obtain ⟨res0, h00, h01, h02⟩ := colliderSDF_brackets (abs (sdf (xfApply3 (xfInverse3 ts) c)))
+    (fun r => decide (absS (sdf (xfApply3 (xfInverse3 ts) c)) ≤ r)) (fun r => by rw [absS_eq]) contains iters h3 h4
+  refine ⟨resT, res0, hT0, h00, hT2, h02, ?_⟩
+  have kpos := (xf3_sim ts h).kpos
+  set k := xfFactor3 ts
+  set a := abs (sdf (xfApply3 (xfInverse3 ts) c))
+  have hp : (0 : K) < 2 ^ iters := by positivity
+  have e1 : |k * res0 - k * a| * 2 ^ (iters + 1) < k * a := by
+    rw [← mul_sub, abs_mul, abs_of_pos kpos, mul_assoc]
+    exact mul_lt_mul_of_pos_left h01 kpos
+  have tri : |resT - k * res0| ≤ |resT - k * a| + |k * res0 - k * a| := by
+    have := abs_sub_le resT (k * a) (k * res0)
+    rwa [abs_sub_comm (k * a) (k * res0)] at this
+  have : |resT - k * res0| * 2 ^ (iters + 1) < 2 * (k * a) := by
+    have hp1 : (0 : K) < 2 ^ (iters + 1) := by positivity
+    calc |resT - k * res0| * 2 ^ (iters + 1) ≤ (|resT - k * a| + |k * res0 - k * a|) * 2 ^ (iters + 1) :=
+          mul_le_mul_of_nonneg_right tri hp1.le
+      _ = |resT - k * a| * 2 ^ (iters + 1) + |k * res0 - k * a| * 2 ^ (iters + 1) := by ring
+      _ < k * a + k * a := add_lt_add hT1 e1
+      _ = 2 * (k * a) := by ring
+  rw [pow_succ] at this
+  linarith
 
 /-! ## Meshes -/
 
